@@ -274,7 +274,7 @@ def col (rows : List (Row K)) (k j : Nat) : Row K :=
 theorem piece_cons (i : Nat) (e : Entry K) (r : Row K) (j : Nat) :
     piece i (e :: r) j = (if e.idx = j then [⟨i, e.val⟩] else []) ++ piece i r j := by
   unfold piece
-  by_cases h : e.idx = j <;> simp [List.filter_cons, h]
+  by_cases h : e.idx = j <;> simp [h]
 
 @[simp] theorem col_nil (k j : Nat) : col ([] : List (Row K)) k j = [] := rfl
 
@@ -474,6 +474,294 @@ theorem transpose_transpose_rows {M : CSM K} (hw : WFM M) :
       exact ⟨hi, (WFM.row hw i).2 x h, h⟩
   · rw [List.getElem?_eq_none_iff.mpr (by rw [hwtt.1]; exact Nat.le_of_not_lt hi),
       List.getElem?_eq_none_iff.mpr (by rw [hw.1]; exact Nat.le_of_not_lt hi)]
+
+/-! ### sortByIdx -/
+
+theorem insertByIdx_perm (e : Entry K) (l : List (Entry K)) : (insertByIdx e l).Perm (e :: l) := by
+  induction l with
+  | nil => exact List.Perm.refl _
+  | cons x xs ih =>
+    unfold insertByIdx
+    split
+    · exact List.Perm.refl _
+    · exact (ih.cons x).trans (List.Perm.swap e x xs)
+
+theorem sortByIdx_cons (e : Entry K) (l : List (Entry K)) :
+    sortByIdx (e :: l) = insertByIdx e (sortByIdx l) := rfl
+
+theorem sortByIdx_perm (l : List (Entry K)) : (sortByIdx l).Perm l := by
+  induction l with
+  | nil => exact List.Perm.refl _
+  | cons e l ih =>
+    rw [sortByIdx_cons]
+    exact (insertByIdx_perm e _).trans (ih.cons e)
+
+theorem sorted_insertByIdx {e : Entry K} {s : List (Entry K)} (hs : Sorted s)
+    (hne : ∀ x ∈ s, x.idx ≠ e.idx) : Sorted (insertByIdx e s) := by
+  induction s with
+  | nil => exact List.pairwise_singleton _ _
+  | cons x xs ih =>
+    unfold insertByIdx
+    split
+    · rename_i hlt
+      refine sorted_cons.mpr ⟨?_, hs⟩
+      intro y hy
+      rcases List.mem_cons.mp hy with rfl | hy
+      · exact hlt
+      · have := hs.head_lt y hy; omega
+    · rename_i hlt
+      have hx : x.idx ≠ e.idx := hne x (by simp)
+      refine sorted_cons.mpr ⟨?_, ih hs.tail (fun y hy => hne y (by simp [hy]))⟩
+      intro y hy
+      rcases List.mem_cons.mp ((insertByIdx_perm e xs).mem_iff.mp hy) with rfl | hy
+      · omega
+      · exact hs.head_lt y hy
+
+/-- sorting a span with pairwise distinct indices yields a strictly sorted span -/
+theorem sorted_sortByIdx {l : List (Entry K)} (h : (l.map (·.idx)).Nodup) :
+    Sorted (sortByIdx l) := by
+  induction l with
+  | nil => exact sorted_nil
+  | cons e l ih =>
+    rw [List.map_cons, List.nodup_cons] at h
+    rw [sortByIdx_cons]
+    refine sorted_insertByIdx (ih h.2) ?_
+    intro x hx hidx
+    exact h.1 (List.mem_map.mpr ⟨x, (sortByIdx_perm l).mem_iff.mp hx, hidx⟩)
+
+theorem denE_append (l1 l2 : List (Entry K)) (i : Nat) :
+    denE (l1 ++ l2) i = denE l1 i + denE l2 i := by
+  induction l1 with
+  | nil => simp
+  | cons a l1 ih =>
+    simp only [List.cons_append, denE_cons, ih]
+    split <;> ring
+
+theorem denE_perm {l1 l2 : List (Entry K)} (h : l1.Perm l2) (i : Nat) :
+    denE l1 i = denE l2 i := by
+  induction h with
+  | nil => rfl
+  | cons x _ ih => simp only [denE_cons, ih]
+  | swap x y l => simp only [denE_cons]; split <;> split <;> ring
+  | trans _ _ ih1 ih2 => exact ih1.trans ih2
+
+/-- two sorts of permutation-equivalent spans with distinct indices coincide -/
+theorem sortByIdx_eq_of_perm {l1 l2 : List (Entry K)} (hp : l1.Perm l2)
+    (h : (l1.map (·.idx)).Nodup) : sortByIdx l1 = sortByIdx l2 := by
+  have h2 : (l2.map (·.idx)).Nodup := ((hp.map (·.idx)).nodup_iff).mp h
+  exact List.Perm.eq_of_pairwise (le := fun a b : Entry K => a.idx < b.idx)
+    (fun a b _ _ h1 h2 => by omega) (sorted_sortByIdx h) (sorted_sortByIdx h2)
+    ((sortByIdx_perm l1).trans (hp.trans (sortByIdx_perm l2).symm))
+
+/-! ### NewCSRMatrix -/
+
+/-- the cells bucketed into row `i`, in input order -/
+def bucketRow (inc : Bool) (es : List (Coo K)) (i : Nat) : Row K :=
+  (es.filter (fun e => decide (e.row = i) && (decide (e.val ≠ 0) || inc))).map
+    (fun e => ⟨e.col, e.val⟩)
+
+/-- pairwise distinct (row, column) coordinates -/
+def DistinctCoo (es : List (Coo K)) : Prop := (es.map (fun e => (e.row, e.col))).Nodup
+
+@[simp] theorem bucketRow_nil (inc : Bool) (i : Nat) : bucketRow inc ([] : List (Coo K)) i = [] :=
+  rfl
+
+theorem bucketRow_cons (inc : Bool) (e : Coo K) (es : List (Coo K)) (i : Nat) :
+    bucketRow inc (e :: es) i =
+      (if e.row = i ∧ (e.val ≠ 0 ∨ inc = true) then [⟨e.col, e.val⟩] else []) ++
+        bucketRow inc es i := by
+  unfold bucketRow
+  by_cases h : e.row = i ∧ (e.val ≠ 0 ∨ inc = true)
+  · rw [if_pos h, List.filter_cons_of_pos (by simpa using h)]; rfl
+  · rw [if_neg h, List.filter_cons_of_neg (by simpa using h)]; rfl
+
+theorem mem_bucketRow {inc : Bool} {es : List (Coo K)} {i : Nat} {x : Entry K} :
+    x ∈ bucketRow inc es i ↔
+      ∃ e ∈ es, e.row = i ∧ (e.val ≠ 0 ∨ inc = true) ∧ x = ⟨e.col, e.val⟩ := by
+  unfold bucketRow
+  simp only [List.mem_map, List.mem_filter, Bool.and_eq_true, Bool.or_eq_true,
+    decide_eq_true_eq]
+  constructor
+  · rintro ⟨e, ⟨he, h1, h2⟩, rfl⟩; exact ⟨e, he, h1, h2, rfl⟩
+  · rintro ⟨e, he, h1, h2, rfl⟩; exact ⟨e, ⟨he, h1, h2⟩, rfl⟩
+
+theorem bucket_fold_getElem? (inc : Bool) (es : List (Coo K)) (t : List (Row K)) (i : Nat) :
+    (es.foldl (bucketCoo inc) t)[i]? = (t[i]?).map (· ++ bucketRow inc es i) := by
+  induction es generalizing t with
+  | nil => simp
+  | cons e es ih =>
+    rw [List.foldl_cons, ih, bucketRow_cons]
+    unfold bucketCoo
+    by_cases hk : e.val ≠ 0 ∨ inc = true
+    · have hc : ¬ ((isZero e.val && !inc) = true) := by
+        rcases hk with hk | hk <;> simp [hk]
+      rw [if_neg hc, List.getElem?_modify]
+      cases t[i]? with
+      | none => rfl
+      | some a => by_cases hr : e.row = i <;> simp [hr, hk]
+    · have hc : (isZero e.val && !inc) = true := by
+        simp only [not_or, not_not] at hk
+        simp [hk.1, hk.2]
+      rw [if_pos hc]
+      cases t[i]? with
+      | none => rfl
+      | some a => simp [hk]
+
+theorem newCSR_getElem? (rows cols : Nat) (es : List (Coo K)) (inc : Bool) (i : Nat) :
+    (CSM.newCSR rows cols es inc).rows[i]? =
+      if i < rows then some (sortByIdx (bucketRow inc es i)) else none := by
+  unfold CSM.newCSR
+  simp only
+  rw [List.getElem?_map, bucket_fold_getElem?, List.getElem?_replicate]
+  split <;> simp
+
+theorem newCSR_getD (rows cols : Nat) (es : List (Coo K)) (inc : Bool) (i : Nat) :
+    (CSM.newCSR rows cols es inc).rows.getD i [] =
+      if i < rows then sortByIdx (bucketRow inc es i) else [] := by
+  rw [getD_eq, newCSR_getElem?]
+  split <;> rfl
+
+theorem newCSR_length (rows cols : Nat) (es : List (Coo K)) (inc : Bool) :
+    (CSM.newCSR rows cols es inc).rows.length = rows := by
+  apply Nat.le_antisymm
+  · apply List.getElem?_eq_none_iff.mp
+    rw [newCSR_getElem?, if_neg (Nat.lt_irrefl _)]
+  · by_contra hlt
+    have hlt : (CSM.newCSR rows cols es inc).rows.length < rows := by omega
+    have h1 := newCSR_getElem? rows cols es inc (CSM.newCSR rows cols es inc).rows.length
+    rw [if_pos hlt, List.getElem?_eq_none_iff.mpr (Nat.le_refl _)] at h1
+    cases h1
+
+@[simp] theorem newCSR_major (rows cols : Nat) (es : List (Coo K)) (inc : Bool) :
+    (CSM.newCSR rows cols es inc).major = rows := rfl
+@[simp] theorem newCSR_minor (rows cols : Nat) (es : List (Coo K)) (inc : Bool) :
+    (CSM.newCSR rows cols es inc).minor = cols := rfl
+@[simp] theorem newCSR_hidden (rows cols : Nat) (es : List (Coo K)) (inc : Bool) :
+    (CSM.newCSR rows cols es inc).hidden = [] := rfl
+
+theorem distinctCoo_cons {a : Coo K} {es : List (Coo K)} :
+    DistinctCoo (a :: es) ↔
+      (∀ e ∈ es, ¬ (e.row = a.row ∧ e.col = a.col)) ∧ DistinctCoo es := by
+  unfold DistinctCoo
+  rw [List.map_cons, List.nodup_cons]
+  constructor
+  · rintro ⟨h1, h2⟩
+    refine ⟨?_, h2⟩
+    rintro e he ⟨hr, hc⟩
+    exact h1 (List.mem_map.mpr ⟨e, he, by rw [hr, hc]⟩)
+  · rintro ⟨h1, h2⟩
+    refine ⟨?_, h2⟩
+    intro hm
+    obtain ⟨e, he, heq⟩ := List.mem_map.mp hm
+    have := Prod.mk.inj heq
+    exact h1 e he ⟨this.1, this.2⟩
+
+theorem den_bucketRow_of_not_mem {inc : Bool} {es : List (Coo K)} {i j : Nat}
+    (h : ∀ e ∈ es, ¬ (e.row = i ∧ e.col = j)) : denE (bucketRow inc es i) j = 0 := by
+  apply denE_eq_zero_of_forall_ne
+  intro x hx hj
+  obtain ⟨e, he, hr, _, rfl⟩ := mem_bucketRow.mp hx
+  exact h e he ⟨hr, hj⟩
+
+theorem den_bucketRow_of_mem {inc : Bool} {es : List (Coo K)} (hd : DistinctCoo es)
+    {e : Coo K} (he : e ∈ es) : denE (bucketRow inc es e.row) e.col = e.val := by
+  induction es with
+  | nil => simp at he
+  | cons a es ih =>
+    obtain ⟨hd1, hd2⟩ := distinctCoo_cons.mp hd
+    rw [bucketRow_cons, denE_append]
+    rcases List.mem_cons.mp he with rfl | he'
+    · rw [den_bucketRow_of_not_mem hd1, add_zero]
+      by_cases hk : e.val ≠ 0 ∨ inc = true
+      · rw [if_pos ⟨rfl, hk⟩]; simp
+      · rw [if_neg (fun h => hk h.2)]
+        simp only [not_or, not_not] at hk
+        rw [hk.1]; rfl
+    · rw [ih hd2 he']
+      have hne := hd1 e he'
+      by_cases hc : a.row = e.row ∧ (a.val ≠ 0 ∨ inc = true)
+      · rw [if_pos hc]
+        have : a.col ≠ e.col := fun h => hne ⟨hc.1.symm, h.symm⟩
+        simp [this]
+      · rw [if_neg hc]; simp
+
+theorem bucketRow_idx_nodup {inc : Bool} {es : List (Coo K)} (hd : DistinctCoo es) (i : Nat) :
+    ((bucketRow inc es i).map (·.idx)).Nodup := by
+  unfold bucketRow
+  rw [List.map_map]
+  unfold DistinctCoo at hd
+  unfold List.Nodup at hd ⊢
+  rw [List.pairwise_map] at hd ⊢
+  have h2 := List.Pairwise.sublist
+    (List.filter_sublist (p := fun e : Coo K => decide (e.row = i) && (decide (e.val ≠ 0) || inc))
+      (l := es)) hd
+  refine List.Pairwise.imp_of_mem ?_ h2
+  intro a b ha hb hab hcol
+  have ha' := (List.mem_filter.mp ha).2
+  have hb' := (List.mem_filter.mp hb).2
+  simp only [Bool.and_eq_true, decide_eq_true_eq] at ha' hb'
+  apply hab
+  simp only [Function.comp] at hcol
+  rw [ha'.1, hb'.1, hcol]
+
+theorem bucketRow_perm {inc : Bool} {es es' : List (Coo K)} (hp : es.Perm es') (i : Nat) :
+    (bucketRow inc es i).Perm (bucketRow inc es' i) :=
+  (hp.filter _).map _
+
+/-- with distinct coordinates every row of the result is strictly sorted, and in range when the
+    stored columns are -/
+theorem newCSR_wfm {rows cols : Nat} {es : List (Coo K)} {inc : Bool} (hd : DistinctCoo es)
+    (hc : ∀ e ∈ es, (e.val ≠ 0 ∨ inc = true) → e.col < cols) :
+    WFM (CSM.newCSR rows cols es inc) := by
+  refine ⟨newCSR_length rows cols es inc, ?_⟩
+  rw [rows_wf_iff]
+  intro i
+  rw [newCSR_getD, newCSR_minor]
+  split
+  · refine ⟨sorted_sortByIdx (bucketRow_idx_nodup hd i), ?_⟩
+    intro x hx
+    obtain ⟨e, he, _, hk, rfl⟩ := mem_bucketRow.mp ((sortByIdx_perm _).mem_iff.mp hx)
+    exact hc e he hk
+  · exact wf_nil _
+
+theorem newCSR_den_of_mem {rows cols : Nat} {es : List (Coo K)} {inc : Bool}
+    (hd : DistinctCoo es) (hr : ∀ e ∈ es, (e.val ≠ 0 ∨ inc = true) → e.row < rows)
+    {e : Coo K} (he : e ∈ es) :
+    denRows (CSM.newCSR rows cols es inc).rows e.row e.col = e.val := by
+  unfold denRows
+  rw [newCSR_getD]
+  split
+  · rw [denE_perm (sortByIdx_perm _)]
+    exact den_bucketRow_of_mem hd he
+  · rename_i hlt
+    by_cases hk : e.val ≠ 0 ∨ inc = true
+    · exact absurd (hr e he hk) hlt
+    · simp only [not_or, not_not] at hk
+      rw [hk.1]; rfl
+
+theorem newCSR_den_of_not_mem {rows cols : Nat} {es : List (Coo K)} {inc : Bool} {i j : Nat}
+    (h : ∀ e ∈ es, ¬ (e.row = i ∧ e.col = j)) :
+    denRows (CSM.newCSR rows cols es inc).rows i j = 0 := by
+  unfold denRows
+  rw [newCSR_getD]
+  split
+  · rw [denE_perm (sortByIdx_perm _)]
+    exact den_bucketRow_of_not_mem h
+  · rfl
+
+theorem newCSR_perm {rows cols : Nat} {es es' : List (Coo K)} {inc : Bool}
+    (hd : DistinctCoo es) (hp : es.Perm es') :
+    CSM.newCSR rows cols es inc = CSM.newCSR rows cols es' inc := by
+  have hrows : (CSM.newCSR rows cols es inc).rows = (CSM.newCSR rows cols es' inc).rows := by
+    apply List.ext_getElem?
+    intro i
+    rw [newCSR_getElem?, newCSR_getElem?]
+    split
+    · rw [sortByIdx_eq_of_perm (bucketRow_perm hp i) (bucketRow_idx_nodup hd i)]
+    · rfl
+  unfold CSM.newCSR at hrows ⊢
+  simp only at hrows ⊢
+  rw [hrows]
 
 end Mx
 
